@@ -13,6 +13,7 @@ import (
 	"encoding/json"
 	"flag"
 	"fmt"
+	"io"
 	"os"
 	"runtime"
 	"runtime/debug"
@@ -279,6 +280,56 @@ func poolDecodeSide() []poolBad {
 			bads = append(bads, poolBad{Kind: "decoded_value_aliases_input", Det: fmt.Sprintf("config %s: %s -> %s", cfgName, trunc(snap), trunc(after)), Sig: "decode_alias|" + cfgName})
 		}
 	}
+	// stream decoders: every value returned by Decode must survive the following Decode calls, which reuse, compact and
+	// refill the read buffer; each document arrives in its own Read; option sets of the decoder x destination kinds
+	for _, cfgName := range []string{"default", "std", "copystring"} {
+		for _, useNumber := range []bool{false, true} {
+			for _, dest := range []string{"iface", "typed"} {
+				cfg := sonic.ConfigDefault
+				switch cfgName {
+				case "std":
+					cfg = sonic.ConfigStd
+				case "copystring":
+					cfg = sonic.Config{CopyString: true}.Froze()
+				}
+				var docs []string
+				for k := 0; k < 6; k++ {
+					id := strings.Repeat(fmt.Sprint(k+1), 10)
+					docs = append(docs, fmt.Sprintf(`{"s":"string %s","m":{"key %s":"value %s"},"a":["x%s","esc \n %s"],"r":{"raw":[%s]},"n":%s.5,"i":[%s,"iface %s",{"k%s":%s}],"mi":{"q%s":%s}}`+"\n",
+						id, id, id, id, id, id, id, id, id, id, id, id, id))
+				}
+				dec := cfg.NewDecoder(&docReader{docs: docs})
+				if useNumber {
+					dec.UseNumber()
+				}
+				var snaps []string
+				var vals []interface{}
+				for k := range docs {
+					var v interface{}
+					if dest == "typed" {
+						v = &decTarget{}
+					} else {
+						v = new(interface{})
+					}
+					if err := dec.Decode(v); err != nil {
+						bads = append(bads, poolBad{Kind: "wrong_result", Det: fmt.Sprintf("stream Decode %d (%s): %v", k, cfgName, err), Sig: "stream_decode_error"})
+						break
+					}
+					b, _ := json.Marshal(v)
+					vals = append(vals, v)
+					snaps = append(snaps, string(b))
+					for j := 0; j < k; j++ {
+						now, _ := json.Marshal(vals[j])
+						if string(now) != snaps[j] {
+							bads = append(bads, poolBad{Kind: "decoded_value_aliases_input", Sig: "stream_alias|" + cfgName + "|" + dest,
+								Det: fmt.Sprintf("stream decoder (%s, UseNumber=%v, %s destination): value %d changed after Decode %d: %s -> %s", cfgName, useNumber, dest, j, k, trunc([]byte(snaps[j])), trunc(now))})
+							snaps[j] = string(now)
+						}
+					}
+				}
+			}
+		}
+	}
 	// Get([]byte) and GetCopyFromString
 	buf := []byte(doc)
 	n, err := sonic.Get(buf, "a", 1)
@@ -295,6 +346,25 @@ func poolDecodeSide() []poolBad {
 		}
 	}
 	return bads
+}
+
+// docReader delivers one document per Read
+type docReader struct {
+	docs []string
+	i    int
+}
+
+func (r *docReader) Read(p []byte) (int, error) {
+	if r.i >= len(r.docs) {
+		return 0, io.EOF
+	}
+	n := copy(p, r.docs[r.i])
+	if n < len(r.docs[r.i]) {
+		r.docs[r.i] = r.docs[r.i][n:]
+		return n, nil
+	}
+	r.i++
+	return n, nil
 }
 
 // guardedBuffer returns a slice of length 0 and capacity n whose backing array ends exactly at a
@@ -360,14 +430,14 @@ func poolMain(args []string) int {
 	fs.Parse(args)
 	t0 := time.Now()
 	type sum struct {
-		Histories  int            `json:"histories"`
-		Evals      int            `json:"evals"`
-		Guarded    int            `json:"guarded_buffers"`
-		Bad        []poolBad      `json:"bad"`
-		BadBySig   map[string]int `json:"bad_by_sig"`
-		Crashes    []string       `json:"crashes"`
-		Samples    []interface{}  `json:"samples"`
-		WallS      float64        `json:"wall_s"`
+		Histories int            `json:"histories"`
+		Evals     int            `json:"evals"`
+		Guarded   int            `json:"guarded_buffers"`
+		Bad       []poolBad      `json:"bad"`
+		BadBySig  map[string]int `json:"bad_by_sig"`
+		Crashes   []string       `json:"crashes"`
+		Samples   []interface{}  `json:"samples"`
+		WallS     float64        `json:"wall_s"`
 	}
 	S := sum{BadBySig: map[string]int{}}
 	add := func(b poolBad) {
